@@ -466,7 +466,7 @@ def run_script(tag, ops, name="s"):
     return r
 
 
-NOSPEC = ("init", "fin", "enter", "leave", "dump", "phantom", "getmiss")
+NOSPEC = ("init", "fin", "enter", "leave", "sleep", "dump", "phantom", "getmiss")
 
 
 def compare(r, categories):
@@ -487,6 +487,8 @@ def compare(r, categories):
             if "mem" in categories and i < len(r.spec) and r.spec[i] is not None and a != r.spec[i]:
                 res["oracle"].append(i)
             continue
+        if kind == "leave" and a is not None and "UNSTABLE" in a:
+            res["oracle"].append(i)      # a value handed out by get inside the session changed before leave
         if kind in ("fin", "iopen", "inext", "iclose"):
             continue       # cursor steps interleaved with writes: oracle only (see cursor_check)
         if "res" in categories and abstract(a) != abstract(b):
@@ -544,6 +546,158 @@ def minimize(tag, ops, still_fails, budget=60):
     return head + body + tail
 
 
+def gen_overwrite_scripts(rng, tier):
+    """values handed out inside a session vs later overwrites of the same key (same and different lengths, all
+    alignments): the old copy must stay intact until leave, the new one must be returned afterwards"""
+    out = []
+    for n in range(6 if tier == "quick" else 30):
+        ops = ["init", "enter", "create 73"]
+        keys = [bytes([0x61 + i]) for i in range(rng.choice([1, 3, 16]))] + [b"prefix88a"]
+        cur = {}
+        for k in keys:
+            v = bytes(rng.randrange(256) for _ in range(rng.choice([1, 4, 8, 9, 32, 100])))
+            ops.append("put 73 %s %s %d 0 0" % (hx(k), hx(v), rng.choice([1, 8, 16, 64])))
+            cur[k] = v
+        for _ in range(rng.randrange(4, 12)):
+            k = rng.choice(keys)
+            ops.append("get 73 %s" % hx(k))
+            r = rng.random()
+            if r < 0.6:
+                v = bytes((b + 1 + rng.randrange(200)) & 0xff for b in cur[k])      # same length, every byte different
+            else:
+                v = bytes(rng.randrange(256) for _ in range(rng.choice([0, 1, 8, 33])))
+            al = rng.choice([1, 8, 16, 64]) if r >= 0.3 else None
+            m = re.search(r"put 73 %s \S+ (\d+) " % hx(k), "\n".join(reversed(ops)))
+            ops.append("put 73 %s %s %s 0 0" % (hx(k), hx(v), al if al is not None else (m.group(1) if m else "1")))
+            cur[k] = v
+            if rng.random() < 0.5:
+                ops.append("get 73 %s" % hx(k))
+            if rng.random() < 0.15:
+                ops += ["leave", "enter"]
+        ops += ["leave", "fin"]
+        out.append(("overwrite%d" % n, ops))
+    return out
+
+
+def gen_split_boundary_scripts(rng, tier):
+    """a full border whose entries around the split point share one 8-byte slice and differ only in length
+    (zero extensions "m\\0" / "m\\0\\0", or an 8-byte key next to the link of longer keys with the same first 8 bytes);
+    the 16th key is inserted at a chosen rank around the split point (7, 8, 9); then every key is looked up, the
+    range is scanned and the tree dumped.  Optionally everything sits below a common 8-byte prefix (layer 1)."""
+    out = []
+    n_scripts = 24 if tier == "quick" else 150
+    for n in range(n_scripts):
+        prefix = b"" if rng.random() < 0.6 else rng.choice([b"prefix88", b"\0" * 8, b"\xff" * 8])
+        fam_kind = rng.choice(["zero", "zero", "link", "link", "both"])
+        base = bytes([rng.choice([0x6d, 0x01, 0x80])]) + bytes(rng.choice([0, 0x41]) for _ in range(rng.randrange(0, 4)))
+        fam = []
+        if fam_kind in ("zero", "both"):
+            fam += [base + b"\0" * j for j in range(0, 8 - len(base) + 1)]          # all share the slice, lengths differ
+        if fam_kind in ("link", "both"):
+            b8 = (base + b"\0" * 8)[:8]
+            fam += [b8, b8 + b"XYZ", b8 + b"\0", b8 + b"\0\0"]
+        fam = sorted(set(fam))
+        if len(fam) < 2:
+            continue
+        j = rng.randrange(len(fam) - 1)
+        target_rank = rng.choice([7, 8, 8, 8, 9])
+        new_key = fam[j] if rng.random() < 0.7 else fam[j + 1]
+        others = [k for k in fam if k != new_key]
+        # number of family members below new_key
+        below_f = len([k for k in others if k < new_key])
+        need_below = target_rank - below_f
+        if need_below < 0 or need_below > 12:
+            continue
+        lows = [bytes([0x00 if base[0] > 0x01 else 0x00]) + bytes([i + 1]) for i in range(20)]
+        lows = [k for k in lows if k < min(fam)][:need_below]
+        if len(lows) < need_below:
+            continue
+        need_above = 15 - len(others) - len(lows)
+        if need_above < 0:
+            others = others[:15 - len(lows)]
+            need_above = 0
+        highs = [bytes([0xfe]) + bytes([i]) for i in range(need_above)]
+        keys15 = lows + others + highs
+        if len(keys15) != 15:
+            continue
+        rng.shuffle(keys15)
+        ops = ["init", "enter", "create 73"]
+        if prefix:
+            ops.append("put 73 %s 76 1 0 0" % hx(b"a"))
+        for k in keys15:
+            ops.append("put 73 %s %s 1 0 0" % (hx(prefix + k), hx(b"v" + k[:3])))
+        ops.append("dump 73")
+        ops.append("put 73 %s %s 1 0 0" % (hx(prefix + new_key), hx(b"NEW")))
+        allk = sorted(keys15 + [new_key])
+        for k in allk:
+            ops.append("get 73 %s" % hx(prefix + k))
+        ops.append("scan 73 - INF - INF 0 0")
+        ops.append("dump 73")
+        ops.append("put 73 %s %s 1 1 0" % (hx(prefix + new_key), hx(b"DUP")))       # unique insert must fail
+        for k in rng.sample(allk, 5):
+            ops.append("rem 73 %s" % hx(prefix + k))
+        ops.append("scan 73 - INF - INF 0 0")
+        ops += ["dump 73", "leave", "fin"]
+        out.append(("splitb%d" % n, ops))
+    return out
+
+
+def gen_gc_scripts(rng, tier):
+    """several retirements in one session with gc passes in between (the session stays open, so nothing is
+    reclaimable yet), then leave and fin: everything must be released in the end"""
+    out = []
+    for n in range(4 if tier == "quick" else 16):
+        ops = ["init", "fin", "init", "enter", "create 73"]
+        keys = [bytes([0x61 + i]) for i in range(rng.choice([4, 8, 20]))]
+        for k in keys:
+            ops.append("put 73 %s %s %d 0 0" % (hx(k), hx(bytes(rng.randrange(256) for _ in range(rng.choice([1, 9, 40])))),
+                                                 rng.choice([1, 8, 64])))
+        rng.shuffle(keys)
+        for i, k in enumerate(keys):
+            if rng.random() < 0.5:
+                ops.append("rem 73 %s" % hx(k))
+            else:
+                ops.append("put 73 %s %s 8 0 0" % (hx(k), hx(b"new" + bytes([i]))))
+            if i % 3 == 2:
+                ops.append("sleep %d" % rng.choice([60, 100, 130]))
+        if rng.random() < 0.5:
+            ops += ["leave", "sleep 100", "enter"]
+        ops += ["leave", "fin"]
+        out.append(("gc%d" % n, ops))
+    return out
+
+
+def scripts_phase(res, tag, scripts, categories, label):
+    """run extra scripts on the real library and the extracted model, record violations in res (no finish):
+    used by properties whose main tie is elsewhere but whose statement has a sequential store-level clause"""
+    ok, msg = build(tag)
+    if not ok:
+        res.violation(msg[:300], dict(kind="build-failure", log=msg[-4000:]), nofail=True)
+        return
+    nops = 0
+    bad = []
+    for name, ops in scripts:
+        r = run_script(tag, ops, name=name)
+        if r.error:
+            bad.append((name, "crash", r.error, ops, None))
+            continue
+        nops += len(r.ops)
+        c = compare(r, categories)
+        for i in c["oracle"]:
+            bad.append((name, "oracle", "result differs from the specification at `%s`: %s (spec: %s)" % (
+                r.ops[i][:100], r.impl[i][:200], r.spec[i] if i < len(r.spec) else None), ops, i))
+        for cat in categories:
+            for i in c[cat]:
+                bad.append((name, cat, "impl `%s` vs model `%s` at `%s`" % (r.impl[i][:200], r.model[i][:200], r.ops[i][:100]), ops, i))
+    res.cov[label] = dict(scripts=len(scripts), operations=nops, categories=list(categories), failures=len(bad))
+    res.cov["programs"] = res.cov.get("programs", 0) + len(scripts)
+    if bad:
+        orac = [b for b in bad if b[1] in ("oracle", "crash")]
+        name, cat, why, ops, i = (orac or bad)[0]
+        res.violation("%s: %s" % (cat, why[:300]), dict(kind="seq-" + cat, script=ops, why=why, tag=tag, categories=list(categories)),
+                      nofail=not orac)
+
+
 # ------------------------------------------------------------------ property runner
 def load_corpus(pid):
     d = os.path.join(C.VERIF, "corpus", pid)
@@ -565,7 +719,7 @@ def op_mix(scripts):
 
 
 def run_seq_property(res, tag, categories, n_quick, n_thorough, gen_kwargs=None, use_oracle=True,
-                     extra_check=None, nontrivial_min_ops=20, defs=(), post=None):
+                     extra_check=None, nontrivial_min_ops=20, defs=(), post=None, extra_scripts=None):
     """generic flow for a property decided by the sequential model:
        proofs -> builds -> corpus + generated scripts -> compare -> oracle -> decide"""
     pid = res.pid
@@ -586,6 +740,8 @@ def run_seq_property(res, tag, categories, n_quick, n_thorough, gen_kwargs=None,
     scripts = [(name, ops) for name, ops in load_corpus(pid)]
     for i in range(n):
         scripts.append(("gen%d" % i, gen_script(random.Random(rng.getrandbits(48)), res.tier, **gen_kwargs)))
+    if extra_scripts:
+        scripts += list(extra_scripts(random.Random(rng.getrandbits(48)), res.tier))
     total_ops = 0
     mism = []      # (script name, category, op index, op, impl, model)
     orac = []      # (script name, op index, op, impl, spec)
